@@ -147,12 +147,14 @@ def g1(prog, ctx):
             n += 1
     # the model used for printing is storage[index from the registry]
     mdefs = [s for s in walk_no_nested(f) if isinstance(s, ast.Assign) and isinstance(s.targets[0], ast.Name) and s.targets[0].id in model_vars]
-    if len(mdefs) != 1 or not isinstance(mdefs[0].value, ast.Subscript):
-        ctx.fail("G1", f, f._qualname, "model = storage[index]", "printed model is not looked up through the validated index")
+    if len(mdefs) > 1 or (mdefs and not isinstance(mdefs[0].value, ast.Subscript)):
+        ctx.undecided("G1", f, f._qualname, "%d look-ups of a model in the storage outside the validating loop, expected at most one" % len(mdefs))
+    # (no look-up at all: the registry holds the validated models themselves; the write sites were checked against it above)
     # gene coordinates: only max_range over validated transcripts / annotation gene regions
     gi_assign = [s for s in ast.walk(loop) if isinstance(s, ast.Assign) and "gene_info_dict[" in src(s.targets[0])]
     for s in gi_assign:
-        if "max_range(" not in src(s.value) and "gene_range" not in src(s.value):
+        # a gene record may be built from the model's strand / chromosome and from ranges; raw exon coordinates must go through max_range
+        if "exon_blocks" in src(s.value) and "max_range(" not in src(s.value) and "gene_range" not in src(s.value):
             ctx.fail("G1", s, f._qualname, src(s), "gene record coordinates are not the range over validated transcripts")
     ctx.floor("G1", "GTF write sites", n, 3)
     # validate_exons itself: sortedness and 0 < start <= end
@@ -447,9 +449,14 @@ def g5(prog, ctx):
     ctx.floor("G5", "sites creating reference transcript models", n, 3)
     # the registry is reset once per chromosome task, not per sub-region
     f = prog.func("src/dataset_processor.py", "construct_models_in_parallel")
-    if not any(isinstance(st, ast.Assign) and src(st.targets[0]).endswith("." + REG) and src(st.value) == "set()" for st in f.body):
+    from . import c10 as _c10
+    helpers = _c10.reset_helpers(prog, "GraphBasedModelConstructor", REG)
+    task_resets = [st for q_, st in _c10.reset_sites(prog, "GraphBasedModelConstructor", REG) if q_ == "construct_models_in_parallel"]
+    if not task_resets:
         ctx.fail("G5", f, "construct_models_in_parallel", REG, "the registry of reported reference transcripts is not reset at the start of the chromosome task")
     for name, fm in meths.items():
+        if name in helpers:
+            continue                 # a static reset helper: what matters is where it is called (checked above and by S1/O3)
         for st in walk_no_nested(fm):
             if isinstance(st, ast.Assign) and any(src(t).endswith("." + REG) for t in st.targets):
                 ctx.fail("G5", st, "GraphBasedModelConstructor." + name, src(st), "the registry is re-initialised inside the constructor class: it "
